@@ -49,6 +49,8 @@ pub struct Ctl {
     pub fired: AtomicUsize,
     /// busy-loop iterations in eval_partial_deriv, multiplied by a per-(k, call) factor
     pub burn: AtomicUsize,
+    /// while set, calls are neither counted, logged nor failed (oracle evaluations)
+    pub suspended: AtomicBool,
 }
 
 impl Default for Ctl {
@@ -66,6 +68,7 @@ impl Default for Ctl {
             log: Mutex::new(Vec::new()),
             fired: AtomicUsize::new(0),
             burn: AtomicUsize::new(0),
+            suspended: AtomicBool::new(false),
         }
     }
 }
@@ -94,8 +97,18 @@ impl Ctl {
     pub fn log_len(&self) -> usize {
         self.log.lock().unwrap().len()
     }
+    /// run f with the fault plan, counters and log switched off
+    pub fn suspend<R>(&self, f: impl FnOnce() -> R) -> R {
+        let prev = self.suspended.swap(true, SeqCst);
+        let r = f();
+        self.suspended.store(prev, SeqCst);
+        r
+    }
     /// registers a call, returns true iff this call has to fail
     fn tick(&self, kind: CallKind, k: usize) -> bool {
+        if self.suspended.load(SeqCst) {
+            return false;
+        }
         let idx = self.calls.fetch_add(1, SeqCst);
         match kind {
             CallKind::SetParams => self.n_set.fetch_add(1, SeqCst),
